@@ -5,4 +5,4 @@ PENDING_REASON = "check not built yet (DESIGN.md section 3 describes the planned
 NOT_APPLICABLE = {}
 
 # properties whose check has been integrated and verified quiet on the unchanged tree (seeds 0-3 + thorough)
-READY = ["C01", "C02", "C03", "C04", "C05", "C06", "C08", "C09", "C10", "C11", "C12", "C13", "C14", "C15", "C16", "C17", "C18", "C19", "C20", "C21", "C22", "C23", "C24", "C25", "C26", "C27", "C28", "C29", "C30", "C31", "C32", "C33"]
+READY = ["C07", "C01", "C02", "C03", "C04", "C05", "C06", "C08", "C09", "C10", "C11", "C12", "C13", "C14", "C15", "C16", "C17", "C18", "C19", "C20", "C21", "C22", "C23", "C24", "C25", "C26", "C27", "C28", "C29", "C30", "C31", "C32", "C33"]
